@@ -23,6 +23,7 @@ VERIF = os.path.dirname(os.path.dirname(os.path.abspath(__file__)))
 CONTRACT_Q = os.path.join(VERIF, "contracts", "c18_unique_perms.py")
 CONTRACT_T = os.path.join(VERIF, "contracts", "c18_unique_perms_len4.py")
 CONTRACT_T5 = os.path.join(VERIF, "contracts", "c18_unique_perms_len5.py")
+CONTRACT_H = os.path.join(VERIF, "contracts", "c18_unique_perms_history.py")
 GRID_TOL = 1e-12        # projector entries must be this close to k/p! before they are lifted to exact rationals
 ISO_TOL = 1e-9          # float tolerance of the concrete-instance isometry checks
 
@@ -553,6 +554,41 @@ def parse_crosshair(out, path):
     return res
 
 
+def counterexample_kwargs(msg):
+    """'when calling f(xs=[0, 1], k=1, lockstep=False)' -> {'xs': [0, 1], 'k': 1, 'lockstep': False}"""
+    m = re.search(r"when calling \w+\((.*?)\)(?: \(which|\s*$)", msg)
+    if not m:
+        return None
+    try:
+        call = ast.parse(f"f({m.group(1)})", mode="eval").body
+        out = {nm: ast.literal_eval(a) for nm, a in zip(("xs", "k", "lockstep"), call.args)}
+        out.update({kw.arg: ast.literal_eval(kw.value) for kw in call.keywords})
+        return out or None
+    except Exception:  # noqa: BLE001
+        return None
+
+
+def history_verdict(xs, k=0, lockstep=False):
+    """replay of a history counterexample on the real generator, outside CrossHair"""
+    import itertools as it
+    g = unique_perms(list(xs))
+    for _ in range(int(k)):
+        try:
+            next(g)
+        except StopIteration:
+            break
+    got = []
+    for t in unique_perms(list(xs)):
+        got.append(tuple(t))
+        if lockstep:
+            try:
+                next(g)
+            except StopIteration:
+                pass
+    want = set(it.permutations(xs))
+    return (len(got) == len(want) and set(got) == want), got, want
+
+
 def counterexample_args(msg):
     m = re.search(r"when calling \w+\((.*?)\)(?: \(which|\s*$)", msg)
     if not m:
@@ -567,9 +603,10 @@ def counterexample_args(msg):
 class CrossHairTask(Task):
     engine = "E3-crosshair"
 
-    def __init__(self, name, cfg, path, main, twins, negs, timeout):
+    def __init__(self, name, cfg, path, main, twins, negs, timeout, verdict=None):
         super().__init__(name, dict(cfg, contract_file=os.path.relpath(path, VERIF), per_condition_timeout_s=timeout))
         self.path, self.main, self.twins, self.negs, self.timeout = path, main, twins, negs, timeout
+        self.verdict = verdict      # verdict(*counterexample args) -> (holds, got, want): replay on the real function
         self.wall_cap_s = timeout * (1 + len(twins) + len(negs)) + 120
         self.weight = 1000
 
@@ -604,27 +641,62 @@ class CrossHairTask(Task):
         rec["neg_control"] = all(res.get(nm, ("", ""))[0] == "counterexample" for nm in self.negs)
         kind, msg = res.get(self.main, ("missing", ""))
         if kind == "counterexample":
+            args = counterexample_kwargs(msg) if self.verdict else None
             xs = counterexample_args(msg)
             xs = xs[0] if xs and isinstance(xs[0], (list, tuple)) else xs
             rec["disagreements_checked"] = 1
-            if xs is None:
+            if xs is None and args is None:
                 rec["notes"].append(f"counterexample not parseable: {msg[:200]}")
                 return
-            holds, got, want = rearrangement_verdict(xs)      # replay on the REAL function, outside CrossHair
+            if self.verdict:
+                if args is None:
+                    rec["notes"].append(f"counterexample not parseable: {msg[:200]}")
+                    return
+                holds, got, want = self.verdict(**args)
+                call = f"{self.verdict.__name__}({args})"
+                inputs = args
+            else:
+                holds, got, want = rearrangement_verdict(xs)      # replay on the REAL function, outside CrossHair
+                call, inputs = f"list(unique_perms({list(xs)}))", {"xs": list(xs)}
             if not holds:
                 rec["status"] = "violation"
-                rec["violation"] = {"source": "CrossHair counterexample, replayed", "call": f"list(unique_perms({list(xs)}))",
-                                    "inputs": {"xs": list(xs)}, "actual": jsonable(got)[:60],
+                rec["violation"] = {"source": "CrossHair counterexample, replayed", "call": call,
+                                    "inputs": inputs, "actual": jsonable(got)[:60],
                                     "expected": f"each of the {len(want)} distinct rearrangements exactly once"}
             else:
                 rec["notes"].append(f"CrossHair counterexample {xs} did not reproduce on the real function")
             return
+        if kind == "confirmed" and ok and self.verdict:
+            # translator validation of CrossHair's model of the interpreter: CrossHair executes functools caches as plain
+            # calls (and restarts module state per path), so state shared between calls through a cache is invisible to it.
+            # Every input inside the contract's bound is therefore also run on the real interpreter.
+            n_tv = 0
+            for L in range(0, 4):
+                for xs in itertools.product(range(3), repeat=L):
+                    for k in range(0, 4):
+                        for lock in (False, True):
+                            n_tv += 1
+                            holds, got, want = self.verdict(list(xs), k, lock)
+                            if not holds:
+                                rec["tv"] = False
+                                rec["status"] = "violation"
+                                rec["violation"] = {"source": "CrossHair confirmed the contract on its model of the interpreter, but the real interpreter "
+                                                              "violates it at this input of the same bound (state kept between calls, e.g. a functools "
+                                                              "cache, which CrossHair does not model)",
+                                                    "call": f"{self.verdict.__name__}({list(xs)}, {k}, {lock})",
+                                                    "inputs": {"xs": list(xs), "k": k, "lockstep": lock}, "actual": jsonable(got)[:60],
+                                                    "expected": f"each of the {len(want)} distinct rearrangements exactly once"}
+                                return
+            rec["tv"] = True
+            rec["notes"].append(f"translator validation: {n_tv} inputs of the bound replayed on the real interpreter")
         if kind == "confirmed" and ok:
             rec["status"] = "discharged"
         else:
             rec["notes"].append(f"main condition: {kind} {msg[:160]}" if kind != "confirmed" else "guards failed")
 
     def replay(self, rp):
+        if self.verdict:
+            return self.verdict(**rp["violation"]["inputs"])[0]
         xs = rp["violation"]["inputs"]["xs"]
         return rearrangement_verdict(xs)[0]
 
@@ -805,6 +877,10 @@ def obligations(tier):
                              "_unique_perms_each_rearrangement_once",
                              ["_unique_perms_reachability_twin", "_unique_perms_reachability_twin_three_rearrangements"],
                              ["_unique_perms_negative_control_wrong_count", "_unique_perms_negative_control_mutant"], 60))
+    obs.append(CrossHairTask("unique_perms.each_rearrangement_once_after_abandoned_or_interleaved_enumeration_crosshair",
+                             {"max_len": 3, "values": "0..2", "abandoned_after": "0..3 items", "lockstep": "both"}, CONTRACT_H,
+                             "_unique_perms_after_abandoned_enumeration", ["_unique_perms_history_reachability_twin"],
+                             ["_unique_perms_history_negative_control_mutant"], 60 if not T else 300, verdict=history_verdict))
     if T:
         obs.append(CrossHairTask("unique_perms.each_rearrangement_once_crosshair", {"max_len": 4, "values": "0..3"}, CONTRACT_T,
                                  "_unique_perms_each_rearrangement_once_len4", ["_unique_perms_reachability_twin_len4"],
